@@ -81,7 +81,16 @@ class C04(EngineProp):
             ]
             return {"steps": steps, "timeout": None, "ext": [], "ties": draw(st.lists(st.integers(0, 7), max_size=4))}
 
-        return st.one_of(with_policy_faults(), with_policy_faults(), stop_race(), user_policy_failures())
+        def prior(pair):
+            spec, p = pair
+            if p:
+                # the run id of this run was used before on the same runtime by a run that has ended, is still referenced and whose
+                # stream nobody read (a re-submitted job id): whether the submission is refused or accepted, the run that results has
+                # its own outcome, its own terminal event and nothing of the earlier run in its stream
+                spec = dict(spec, prior_run=True)
+            return spec
+
+        return st.tuples(st.one_of(with_policy_faults(), with_policy_faults(), stop_race(), user_policy_failures()), st.sampled_from([False, False, False, True])).map(prior)
 
     def retry_builder(self, spec):
         m = genwf.M()
@@ -160,6 +169,9 @@ class C04(EngineProp):
         out = rec.outcome
         kind = out["kind"]
         r.classes.append("outcome_" + kind)
+        for n_ in rec.notes:
+            if "prior_run_id" in n_:
+                r.classes.append("run_id_used_before_" + n_["prior_run_id"])
         policy_fault = any((s.get("retry") or {}).get("raise_at") for s in spec["steps"])
         if policy_fault:
             r.classes.append("policy_fault_armed")
